@@ -169,11 +169,12 @@ pub fn noise(k: usize) {
     let _ = guard(|| {
         let salt16 = [k as u8; 16];
         match k % 9 {
-            0 => { let _ = wow_srp::pin::calculate_hash(12, 5, &salt16, &salt16); let _ = wow_srp::pin::calculate_hash(1234, k as u32, &salt16, &[7u8; 16]); }
-            1 => { let _ = wow_srp::pin::verify_client_pin_hash(999, 1, &salt16, &salt16, &[0u8; 20]); let _ = wow_srp::pin::verify_client_pin_hash(123456, 1, &salt16, &salt16, &[1u8; 20]); }
+            // (the call that FAILS comes last: whatever a refused input leaves behind meets the recorded call directly)
+            0 => { let _ = wow_srp::pin::calculate_hash(1234, k as u32, &salt16, &[7u8; 16]); let _ = wow_srp::pin::calculate_hash(12, 5, &salt16, &salt16); }
+            1 => { let _ = wow_srp::pin::verify_client_pin_hash(123456, 1, &salt16, &salt16, &[1u8; 20]); let _ = wow_srp::pin::verify_client_pin_hash(999, 1, &salt16, &salt16, &[0u8; 20]); }
             2 => { let _ = wow_srp::integrity::login_integrity_check_generic(&[1, 2, 3, k as u8], &salt16, &[9u8; 32]); let _ = wow_srp::integrity::reconnect_integrity_check(&salt16); }
-            3 => { let _ = NS::new("bad\u{1}name"); let _ = NS::new("waytoolongforanormalizedstring"); let _ = NS::new("ok"); }
-            4 => { let _ = wow_srp::PublicKey::from_le_bytes([0u8; 32]); let _ = wow_srp::PublicKey::from_le_bytes(wow_srp::LARGE_SAFE_PRIME_LITTLE_ENDIAN); let _ = wow_srp::PublicKey::from_le_bytes([k as u8 | 1; 32]); }
+            3 => { let _ = NS::new("ok"); let _ = NS::new("waytoolongforanormalizedstring"); let _ = NS::new("bad\u{1}name"); }
+            4 => { let _ = wow_srp::PublicKey::from_le_bytes([k as u8 | 1; 32]); let _ = wow_srp::PublicKey::from_le_bytes([0u8; 32]); let _ = wow_srp::PublicKey::from_le_bytes(wow_srp::LARGE_SAFE_PRIME_LITTLE_ENDIAN); }
             5 => {
                 let u = NS::new("NOISE").unwrap();
                 let _ = wow_srp::vanilla_header::ProofSeed::new().into_server_header_crypto(&u, [k as u8; 40], [0u8; 20], 1);
